@@ -4,6 +4,7 @@ import ExponaxModel.Proofs.ReadOffSpectrum
 import ExponaxModel.Proofs.ReadOffParseval
 import ExponaxModel.Proofs.SpectralOpsEq
 import ExponaxModel.Proofs.SmallGapsSpectrum
+import ExponaxModel.Proofs.SmallGaps3Nyquist
 /-
 C17 — radial spectrum: every mode lands in its documented bin.
 Integer part: the half-open bins `[b−½, b+½)` of `get_spectrum`, written on `4|k|²`.
@@ -190,6 +191,65 @@ open Exponax.SmallGaps in
 theorem C17_every_bin_is_populated :
     ∀ (D N b : ℕ), 1 ≤ D → 0 < N → b ≤ N / 2 → 0 < binCount D N b :=
   @Exponax.SmallGaps.binCount_pos
+
+
+
+/-! ### read-off INCLUDING Nyquist wavenumbers (even N): a self-conjugate wave shows |a cos φ| (amplitude) in its bin, any other
+wave with Nyquist components |a| resp. a²/4 as below Nyquist, and a Nyquist wave outside the sphere appears in no bin -/
+
+open Exponax.SmallGaps3 in
+theorem C17_amplitude_readoff_self_conjugate :
+    ∀ (D N : ℕ),
+      1 ≤ D →
+        0 < N →
+          ∀ (κ : List ℤ),
+            SmallGaps2.AtMostNyquist D N κ →
+              SmallGaps2.SelfConj D N κ →
+                ∀ (a φ : ℝ),
+                  ∀ b < N / 2 + 1,
+                    (Spectrum.spectrum D N false false (ExactLinear.modeField D N κ a φ)).getD b 0 =
+                      if Layout.inBin κ b = true then ↑|a * Real.cos φ| else 0 :=
+  @Exponax.SmallGaps3.spectrum_amplitude_selfconj
+
+open Exponax.SmallGaps3 in
+theorem C17_amplitude_readoff_at_nyquist :
+    ∀ (D N : ℕ),
+      1 ≤ D →
+        0 < N →
+          ∀ (κ : List ℤ),
+            SmallGaps2.AtMostNyquist D N κ →
+              ¬SmallGaps2.SelfConj D N κ →
+                ∀ (a φ : ℝ),
+                  ∀ b < N / 2 + 1,
+                    (Spectrum.spectrum D N false false (ExactLinear.modeField D N κ a φ)).getD b 0 =
+                      if Layout.inBin κ b = true then ↑|a| else 0 :=
+  @Exponax.SmallGaps3.spectrum_amplitude_nyquist
+
+open Exponax.SmallGaps3 in
+theorem C17_power_readoff_at_nyquist :
+    ∀ (D N : ℕ),
+      1 ≤ D →
+        0 < N →
+          ∀ (κ : List ℤ),
+            SmallGaps2.AtMostNyquist D N κ →
+              ¬SmallGaps2.SelfConj D N κ →
+                ∀ (a φ : ℝ),
+                  ∀ b < N / 2 + 1,
+                    (Spectrum.spectrum D N true false (ExactLinear.modeField D N κ a φ)).getD b 0 =
+                      if Layout.inBin κ b = true then ((a ^ 2 / 4 : ℝ) : ℂ) else 0 :=
+  @Exponax.SmallGaps3.spectrum_power_nyquist
+
+open Exponax.SmallGaps3 in
+theorem C17_nyquist_wave_outside_sphere_dropped :
+    ∀ (D N : ℕ),
+      1 ≤ D →
+        0 < N →
+          ∀ (κ : List ℤ),
+            SmallGaps2.AtMostNyquist D N κ →
+              N / 2 + 1 ≤ Layout.roundNorm κ →
+                ∀ (power : Bool) (a φ : ℝ),
+                  ∀ b < N / 2 + 1, (Spectrum.spectrum D N power false (ExactLinear.modeField D N κ a φ)).getD b 0 = 0 :=
+  @Exponax.SmallGaps3.spectrum_nyquist_dropped
 
 
 end Exponax
